@@ -547,8 +547,17 @@ def whole_runs(ctx, binary, label, env=None, timeout=240):
     stats = {"runs": 0, "failed": 0}
     t_start = time.time()
 
+    more = []
+
     def report(name, what, param, cmd, res, aux=None, key=None):
         stats["failed"] += 1
+        if key is None:
+            stats["generic"] = stats.get("generic", 0) + 1
+            if stats["generic"] > 3:
+                # one defect usually breaks many configurations: the first three get their own
+                # replay file, the rest is listed in one more
+                more.append({"run": name, "what": what, "cmd": cmd, "param": param, "aux_files": aux or {}})
+                return
         tail = res["log"][-1800:]
         # keep the replay file (and its name) the same from run to run
         for pat, sub in ((r"\d\d:\d\d:\d\d", "hh:mm:ss"), (r"/tmp/verif_\w+", "/tmp/verif_X"), (r"\[\w+:\d+\]", "[pid]"), (r"==\d+==", "==pid=="),
@@ -628,6 +637,9 @@ def whole_runs(ctx, binary, label, env=None, timeout=240):
     c = dict(trackers=True, same_cell=True, copy_level=0)
     one("tbi-multi-tracker-shares-cell", tbi_param(c), ["--task-based"], 1, [r"snap\d+\.txt"], aux={"trackers.yml": tbi_tracker_yaml("MS", c)},
         key="run:tracker-multi-shares-cell-double-delete")
+    if more:
+        ctx.violation("run:%s:more-failing-runs" % label, "%d more runs of the %s binary fail (%s)" % (len(more), label, ", ".join(m["run"] + ": " + m["what"][:60] for m in more)[:1500]),
+                      {"runs": more, "binary": label, "param": more[0]["param"], "cmd": more[0]["cmd"], "aux_files": more[0]["aux_files"]})
     stats["wall_s"] = round(time.time() - t_start, 1)
     ctx.cov.setdefault("whole_runs", {})[label] = stats
     return stats
